@@ -142,8 +142,13 @@ class World:
         """A ball physically reaches `dev` (from a transit or from the playfield)."""
         if self.at[dev] >= self.capacity(dev):
             # no room: the ball bounces back on to the playfield
-            self.overflowed = True
             self.loose += 1
+            if self.dev[dev].get("entrance") and self.dev[dev].get("shot"):
+                # a playfield shot at a full entrance-counted device: the ball rolls over the entrance switch and back out
+                self._pulse_switch(self.dev[dev]["entrance"])
+                self.log.append(("rolled-back", round(self.loop.time(), 3), dev))
+                return
+            self.overflowed = True
             self.log.append(("bounce", round(self.loop.time(), 3), dev))
             return
         self.at[dev] += 1
